@@ -31,9 +31,11 @@ Bodies  == IF Thorough
            THEN {BurnBody(0, T1, Pad("a3"), 1, Pad("x2")), BurnBody(1, T1, Pad("a3"), 1, Pad("x2")),
                  BurnBody(0, T2, Pad("a3"), 1, Pad("x2")), BurnBody(0, T1, B("j", "a3"), 2, Pad("x2")),
                  BurnBody(0, T1, Pad("a3"), 0, Pad("x2")), BurnBody(0, KTok(MINT), Pad("a1"), 1, Pad("a1")),
+                 BurnBody(0, T1, Pad("a8"), 1, Pad("x2")), BurnBody(0, T1, B("j", "x2"), 1, Pad("x2")), BurnBody(0, T1, Pad("zero"), 1, Pad("x2")),
                  Raw(1, 132), Raw(1, 131), Raw(1, 133), Raw(1, 0), Raw(1, 300)}
            ELSE {BurnBody(0, T1, Pad("a3"), 1, Pad("x2")), BurnBody(1, T1, Pad("a3"), 1, Pad("x2")),
                  BurnBody(0, T2, Pad("a3"), 1, Pad("x2")), BurnBody(0, T1, B("j", "a3"), 2, Pad("x2")),
+                 BurnBody(0, T1, Pad("a8"), 1, Pad("x2")),          \* (a8 / x2: addresses that start with zero bytes)
                  Raw(1, 132), Raw(1, 131)}
 Rcpts   == IF Thorough THEN {ModulePadded, R1, Pad("a1"), B("j", MODULE_ACC)} ELSE {ModulePadded, R1}
 Wires   == [k : {"msg"}, ver : {0, 1}, src : {"d1"}, dst : {NOBLE, "d2"}, nonce : {0}, sender : {M1, M2, Pad("m1")},
